@@ -56,6 +56,11 @@ def run_grid(case, seed, R):
             f0 = R.call(fttools.forward_ft_unit, dx, n, False)
             R.expect_close(f0, np.fft.ifftshift(reff), 4 * eps * np.abs(np.fft.ifftshift(reff)),
                            f'forward_ft_unit:noshift:{par(n)}', f'forward_ft_unit({dx},{n},shift=False)')
+            # the shift flag in the truthy / falsy spellings a numpy comparison or an int option hands over
+            if f is not FAILED and f0 is not FAILED:
+                for flag, wantf in ((np.True_, f), (np.bool_(True), f), (1, f), (np.False_, f0), (0, f0)):
+                    g = R.call(fttools.forward_ft_unit, dx, n, flag)
+                    R.expect_equal(g, wantf, 'forward_ft_unit:shift-flag-form', f'forward_ft_unit({dx}, {n}, shift={flag!r}) vs shift={bool(flag)}')
             R.nontrivial(n > 1)
             # the sample count in the integer types an array shape, a file header field or an index computation hands over
             for tname in COUNT_FORMS:
@@ -253,6 +258,24 @@ def run_padQ(case, seed, R):
 # ---------------------------------------------------------------------------------------------
 # slices, centroid
 
+AZ = ('azavg', 'azmedian', 'azmin', 'azmax')
+
+
+def az_check(R, s, origin_value, sig, what):
+    """the azimuthal slices start at r = 0, i.e. AT the origin sample: every one of them must report the origin sample there"""
+    for nm in AZ:
+        out = R.call(getattr, s, nm, sig=f'{sig}:{nm}:exception', hygiene=False)
+        if out is FAILED:
+            continue
+        try:
+            rr, vv = out
+            ok = len(rr) > 0 and float(rr[0]) == 0.0 and abs(float(vv[0]) - float(origin_value)) <= 1e-9 * max(1.0, abs(float(origin_value)))
+            msg = f'{what}: {nm} starts at r={float(rr[0])!r} with value {float(vv[0])!r}, the origin sample holds {float(origin_value)!r}'
+        except Exception as e:   # noqa
+            ok, msg = False, f'{what}: unusable {nm} output: {type(e).__name__}: {e}'
+        R.expect(ok, f'{sig}:az-origin', msg)
+
+
 def run_slices(case, seed, R):
     n0, n1, dx = case['n0'], case['n1'], case['dx']
     a = labels((n0, n1))
@@ -271,6 +294,27 @@ def run_slices(case, seed, R):
         eps = np.finfo(float).eps
         R.expect_close(cx, (np.arange(n1) - n1 // 2) * dx, 4 * eps * n1 * dx, sig + ':x', 'x slice coordinates')
         R.expect_close(cy, (np.arange(n0) - n0 // 2) * dx, 4 * eps * n0 * dx, sig + ':y', 'y slice coordinates')
+        az_check(R, s, a[n0 // 2, n1 // 2], sig, f'RichData.slices() of {a.shape} data (caches: {pre})')
+        # object history: the data array is replaced (assignment, as Interferogram.filter does) or rewritten in place after slices
+        # were taken -- the next slices() must be slices of the CURRENT data
+        b = a[::-1, ::-1] * 2 + 1
+        for how in ('assign', 'inplace'):
+            rd2 = RichData(a.copy(), dx, 0.5)
+            if pre == 'xy':
+                rd2.x, rd2.y   # noqa
+            for ts in (True, False):
+                R.call(rd2.slices, ts)
+            if how == 'assign':
+                rd2.data = b.copy()
+            else:
+                rd2.data[...] = b
+            s2 = R.call(rd2.slices, True)
+            if s2 is not FAILED:
+                R.expect_equal(s2.x[1], b[n0 // 2, :], sig + f':after-data-{how}:x', f'x slice taken after the data were replaced ({how}) is not the row n//2 of the current data')
+                R.expect_equal(s2.y[1], b[:, n1 // 2], sig + f':after-data-{how}:y', f'y slice taken after the data were replaced ({how}) is not the column n//2 of the current data')
+            s2 = R.call(rd2.slices, False)
+            if s2 is not FAILED:
+                R.expect_equal(s2.x[1], b[n0 // 2, n1 // 2:], sig + f':after-data-{how}:x1', f'one-sided x slice after the data were replaced ({how})')
         s = R.call(rd.slices, False)
         if s is FAILED:
             continue
@@ -297,6 +341,7 @@ def run_slices(case, seed, R):
                 continue
             R.expect_equal(s.x[1], a[i0, :], sig + ':shifted-origin:x', f'{how}: x slice is not the row of the zero y coordinate (row {i0} of {n0})')
             R.expect_equal(s.y[1], a[:, j0], sig + ':shifted-origin:y', f'{how}: y slice is not the column of the zero x coordinate (column {j0} of {n1})')
+            az_check(R, s, a[i0, j0], sig + ':shifted-origin', f'{how}, origin at {(i0, j0)}')
             s = R.call(mk, False)
             if s is FAILED:
                 continue
@@ -340,6 +385,26 @@ def run_centroid(case, seed, R):
         R.expect_close(got, (0.0, 0.0), 8 * eps * dx * max(n0, n1), sig + ':pair', 'symmetric pair about origin')
     R.nontrivial(n0 * n1 > 1)
     R.outcome('centroid')
+
+
+def run_centroid_large(case, seed, R):
+    """size thresholds of the centroid: windowed / decimated fast paths for big frames; point sources at the edges, at the corners,
+    just inside and outside a 48 / 64-sample margin and at the origin, every one judged exactly"""
+    n0, n1, dx = case['n0'], case['n1'], case['dx']
+    eps = np.finfo(float).eps
+    rows = sorted({0, 1, 10, 47, 48, 63, 64, n0 // 2 - 1, n0 // 2, n0 - 65, n0 - 48, n0 - 2, n0 - 1} & set(range(n0)))
+    cols = sorted({0, 1, 20, 47, 48, 63, 64, n1 // 2, n1 // 2 + 1, n1 - 64, n1 - 49, n1 - 2, n1 - 1} & set(range(n1)))
+    pts = [(rows[k % len(rows)], cols[(3 * k + 1) % len(cols)]) for k in range(max(len(rows), len(cols)) * 2)] + [(0, 0), (n0 - 1, n1 - 1), (0, n1 - 1), (n0 - 1, 0), (n0 // 2, n1 // 2)]
+    d = np.zeros((n0, n1))
+    for k, (i, j) in enumerate(dict.fromkeys(pts)):
+        d[i, j] = 2.5
+        got = R.call(psfmod.centroid, d, dx, 'spatial', hygiene=k == 0)
+        R.expect_close(got, (dx * (i - n0 // 2), dx * (j - n1 // 2)), 64 * eps * dx * max(n0, n1), 'centroid:large', f'centroid of a point source at {(i, j)} in a {(n0, n1)} frame, dx={dx}')
+        got = R.call(psfmod.centroid, d, None, 'pixels', hygiene=False)
+        R.expect_close(got, (i, j), 64 * eps * max(n0, n1), 'centroid:large:pixels', f'pixel centroid of a point source at {(i, j)} in a {(n0, n1)} frame')
+        d[i, j] = 0.0
+    R.nontrivial()
+    R.outcome('centroid:large')
 
 
 # ---------------------------------------------------------------------------------------------
@@ -420,6 +485,23 @@ def wf_check(st, init, history, R):
     name = last if isinstance(last, str) else last[0]
     R.expect_equal(st.wf.data, st.model, f'Wavefront:history:{name}', f'Wavefront data after {history} differ from the array model (pad embeds sample n//2 at N//2 into a border of the fill value, crop slices about n//2)')
     R.expect(st.wf.dx == 1.0 and st.wf.wavelength == 0.5, f'Wavefront:history:{name}:meta', 'dx / wavelength changed')
+    # the views a user inspects between steps (intensity / phase as RichData with coordinates and slices): taken in EVERY state, so a
+    # view that remembers the grid or the slices of an earlier state is primed before every later pad / crop
+    n0, n1 = st.model.shape
+    for attr, wantd in (('intensity', np.abs(st.model) ** 2), ('real', st.model.real)):
+        v = R.call(getattr, st.wf, attr, sig=f'Wavefront.{attr}:history:exception', hygiene=False)
+        if v is FAILED:
+            continue
+        R.expect_equal(getattr(v, 'data', None), wantd, f'Wavefront.{attr}:history:data', f'.{attr}.data after {history}')
+        x = R.call(getattr, v, 'x', sig=f'Wavefront.{attr}.x:history:exception', hygiene=False)
+        y = R.call(getattr, v, 'y', sig=f'Wavefront.{attr}.y:history:exception', hygiene=False)
+        X, Y = np.meshgrid(np.arange(n1) - n1 // 2, np.arange(n0) - n0 // 2)
+        R.expect_equal(x, X.astype(float), f'Wavefront.{attr}:history:grid', f'.{attr}.x after {history}: not the {(n0, n1)} grid with its zero at n//2')
+        R.expect_equal(y, Y.astype(float), f'Wavefront.{attr}:history:grid', f'.{attr}.y after {history}: not the {(n0, n1)} grid with its zero at n//2')
+        sl = R.call(v.slices, True, sig=f'Wavefront.{attr}.slices:history:exception', hygiene=False)
+        if sl is not FAILED:
+            R.expect_equal(sl.x[1], wantd[n0 // 2, :], f'Wavefront.{attr}:history:slices', f'.{attr}.slices().x after {history} is not the row n//2 of the current data')
+            R.expect_equal(sl.y[1], wantd[:, n1 // 2], f'Wavefront.{attr}:history:slices', f'.{attr}.slices().y after {history} is not the column n//2 of the current data')
     if st.side is not None:
         out, want = st.side
         if out is not FAILED:
@@ -455,6 +537,10 @@ def plan(tier, seed):
     padq_cases = [{'n0': n0, 'n1': n1, 'Q': Q} for n0 in range(1, B1 + 1) for n1 in range(1, B1 + 1)
                   for Q in (1, 1.5, 2, 3, 1.25)]
     sl_cases = [{'n0': n0, 'n1': n1, 'dx': dx} for n0 in range(1, B1 + 1) for n1 in range(1, B1 + 1) for dx in (1.0, 0.3)]
+    # magnitude of the sample spacing (metres for a detector pitch, microradians ...): absolute closeness tests misfire at these
+    sl_cases += [{'n0': n0, 'n1': n1, 'dx': dx} for (n0, n1) in ((1, 1), (2, 2), (2, 3), (3, 2), (4, 4), (5, 5), (4, 7), (7, 4), (B1, B1 - 1)) for dx in (6.5e-9, 1e-12, 1e-300, 2.5e6)]
+    cl_cases = [{'n0': n0, 'n1': n1, 'dx': 0.5} for (n0, n1) in ((513, 512), (512, 514), (700, 400), (1030, 1031))] + \
+        ([] if tier == 'quick' else [{'n0': n0, 'n1': n1, 'dx': 0.3} for (n0, n1) in ((2049, 2050), (300, 4000), (129, 2100))])
     ce_cases = [{'n0': n0, 'n1': n1, 'dx': dx} for n0 in range(1, B2 + 3) for n1 in range(1, B2 + 3) for dx in (1.0, 0.3)]
     ce_cases += [{'n0': n0, 'n1': n1, 'dx': 0.5} for (n0, n1) in ((33, 48), (48, 33), (64, 64), (65, 65), (1, 300), (257, 2))]   # index x value overflows narrow containers
     rs = lambda: reset_executors(64)   # noqa
@@ -477,7 +563,11 @@ def plan(tier, seed):
         ScopeUnit('pad_Q', padq_cases, run_padQ,
                   f'every (n0,n1) in [1..{B1}]^2 x Q in {{1,1.25,1.5,2,3}} through the Q form of pad2d and Wavefront.pad2d', reset=rs),
         ScopeUnit('slices', sl_cases, run_slices,
-                  f'every shape in [1..{B1}]^2 x dx: RichData.slices() two- and one-sided, with and without populated coordinate caches; labelled data', reset=rs),
+                  f'every shape in [1..{B1}]^2 x dx {{1, 0.3}} (plus dx in {{6.5e-9, 1e-12, 1e-300, 2.5e6}} on 9 shapes): RichData.slices() two- and one-sided, with and without populated coordinate caches, the azimuthal slices at r = 0, '
+                  'slices taken again after the data array was replaced / rewritten in place, shifted-origin and mirrored coordinate vectors through the setters and through Slices directly; labelled data', reset=rs),
+        ScopeUnit('centroid_large', cl_cases, run_centroid_large,
+                  f'size-threshold alphabet of frame shapes {[(c["n0"], c["n1"]) for c in cl_cases]} (all above 512x512 samples, above 2^20 for the largest): point sources at the corners, edges, '
+                  'just inside / outside 48- and 64-sample margins, next to and at the origin, spatial and pixel units, each judged exactly; not closed over sizes', reset=rs),
         ScopeUnit('centroid', ce_cases, run_centroid,
                   f'every shape in [1..{B2 + 2}]^2 x dx x EVERY point-source position, spatial and pixel units, plus a symmetric pair', reset=rs),
     ]
